@@ -64,6 +64,9 @@ type fnInfo struct {
 }
 
 type GuardEngine struct {
+	skipRes []*regexp.Regexp // Skip patterns of the row being evaluated
+	errCells  map[*ssa.Alloc]bool // see errResultCell
+	inErrCell bool
 	predDepth int // nesting of one-line predicate expansion in decompose
 	p     *Program
 	pv    *Prov
@@ -167,11 +170,27 @@ func (ge *GuardEngine) info(fn *ssa.Function) *fnInfo {
 			}
 		}
 	}
+	// "first error wins": a store of a certainly non-nil error into the enclosing function's error-result cell (the
+	// accumulate-and-return idiom: check := func(…) { if err == nil && bad { err = errors.New(…) } } … return err)
+	// makes acceptance impossible from that block on, and an edge taken when the cell is already non-nil is a rejecting edge
+	cellRej := ge.errCellRejections(fi)
+	for b := range cellRej {
+		delete(fi.canAccept, b)
+	}
+	{
+		var w2 []*ssa.BasicBlock
+		for _, b := range work {
+			if !cellRej[b] {
+				w2 = append(w2, b)
+			}
+		}
+		work = w2
+	}
 	for len(work) > 0 {
 		b := work[len(work)-1]
 		work = work[:len(work)-1]
 		for _, pr := range b.Preds {
-			if !fi.canAccept[pr] {
+			if !fi.canAccept[pr] && !cellRej[pr] {
 				fi.canAccept[pr] = true
 				work = append(work, pr)
 			}
@@ -365,6 +384,136 @@ func (ge *GuardEngine) definitelyRejects(fi *fnInfo, b *ssa.BasicBlock, rv ssa.V
 		}
 	}
 	return false
+}
+
+// errResultCell: v (an Alloc, or a FreeVar bound to one) is the cell of a function's error result such that
+// (a) every return of that function returns the cell's current value, and (b) every store into the cell, in that
+// function or in a closure capturing it, is a certainly non-nil error (or the cell's own value). Once non-nil such
+// a cell stays non-nil and the function rejects.
+func (ge *GuardEngine) errResultCell(v ssa.Value) *ssa.Alloc {
+	cell, _ := ge.pv.resolve(v).(*ssa.Alloc)
+	if cell == nil || cell.Block() == nil {
+		return nil
+	}
+	if ok, seen := ge.errCells[cell]; seen {
+		if ok {
+			return cell
+		}
+		return nil
+	}
+	if ge.errCells == nil {
+		ge.errCells = map[*ssa.Alloc]bool{}
+	}
+	ge.errCells[cell] = false
+	pt, isPtr := cell.Type().Underlying().(*types.Pointer)
+	if !isPtr || typeName(pt.Elem()) != "error" {
+		return nil
+	}
+	owner := cell.Block().Parent()
+	nret := 0
+	for _, b := range owner.Blocks {
+		ret, isRet := b.Instrs[len(b.Instrs)-1].(*ssa.Return)
+		if !isRet {
+			continue
+		}
+		nret++
+		if len(ret.Results) == 0 {
+			return nil
+		}
+		ld, isLd := ret.Results[len(ret.Results)-1].(*ssa.UnOp)
+		if !isLd || ld.Op != token.MUL || ld.X != ssa.Value(cell) {
+			return nil
+		}
+	}
+	if nret == 0 {
+		return nil
+	}
+	// stores, here and in capturing closures
+	var addrs []ssa.Value
+	addrs = append(addrs, cell)
+	for _, r := range *cell.Referrers() {
+		if mc, isMC := r.(*ssa.MakeClosure); isMC {
+			if f, ok := mc.Fn.(*ssa.Function); ok {
+				for j, bnd := range mc.Bindings {
+					if bnd == ssa.Value(cell) && j < len(f.FreeVars) {
+						addrs = append(addrs, f.FreeVars[j])
+					}
+				}
+			}
+		}
+	}
+	nstores := 0
+	for _, a := range addrs {
+		for _, r := range *a.Referrers() {
+			st, isSt := r.(*ssa.Store)
+			if !isSt || st.Addr != a {
+				if _, isLd := r.(*ssa.UnOp); isLd {
+					continue
+				}
+				if _, isMC := r.(*ssa.MakeClosure); isMC {
+					continue
+				}
+				if _, isDbg := r.(*ssa.DebugRef); isDbg {
+					continue
+				}
+				return nil // the address escapes some other way
+			}
+			if ld, isLd := st.Val.(*ssa.UnOp); isLd && ld.Op == token.MUL && ld.X == a {
+				continue // "return err" re-stores the loaded value
+			}
+			sfi := &fnInfo{fn: st.Block().Parent(), kind: fnKind(st.Block().Parent())} // not the cached info: that one is being built
+			if !ge.definitelyRejects(sfi, st.Block(), st.Val, 1) {
+				return nil
+			}
+			nstores++
+		}
+	}
+	if nstores == 0 {
+		return nil
+	}
+	ge.errCells[cell] = true
+	return cell
+}
+
+// errCellRejections: the blocks of fi.fn that store a non-nil error into an error-result cell; as a side effect
+// marks the edges taken when such a cell is already non-nil as rejecting edges.
+func (ge *GuardEngine) errCellRejections(fi *fnInfo) map[*ssa.BasicBlock]bool {
+	out := map[*ssa.BasicBlock]bool{}
+	for _, b := range fi.fn.Blocks {
+		for _, in := range b.Instrs {
+			switch x := in.(type) {
+			case *ssa.Store:
+				if ld, isLd := x.Val.(*ssa.UnOp); isLd && ld.Op == token.MUL && ld.X == x.Addr {
+					continue
+				}
+				if ge.errResultCell(x.Addr) != nil {
+					out[b] = true
+				}
+			case *ssa.If:
+				bo, ok := x.Cond.(*ssa.BinOp)
+				if !ok || (bo.Op != token.EQL && bo.Op != token.NEQ) {
+					continue
+				}
+				isNil := func(v ssa.Value) bool { k, ok := v.(*ssa.Const); return ok && k.Value == nil }
+				var other ssa.Value
+				if isNil(bo.Y) {
+					other = bo.X
+				} else if isNil(bo.X) {
+					other = bo.Y
+				}
+				ld, isLd := other.(*ssa.UnOp)
+				if !isLd || ld.Op != token.MUL || ge.errResultCell(ld.X) == nil {
+					continue
+				}
+				nonNilEdge := 0 // successor taken when the cell is non-nil
+				if bo.Op == token.EQL {
+					nonNilEdge = 1
+				}
+				fi.rejEdge[[2]*ssa.BasicBlock{b, b.Succs[nonNilEdge]}] = true
+			}
+		}
+	}
+	return out
 }
 
 // sameCellReload: tested and returned are two loads of the same variable cell (a named result or a variable a
@@ -946,6 +1095,28 @@ func (ge *GuardEngine) guardsRec(fn *ssa.Function, env *Env, chain []string, ctx
 			out = append(out, sub...)
 		}
 	}
+	// calls of local closures that record the first error in the function's error cell: their guards are this
+	// function's guards
+	for _, b := range fn.Blocks {
+		for _, in := range b.Instrs {
+			call, ok := in.(*ssa.Call)
+			if !ok || call.Call.IsInvoke() {
+				continue
+			}
+			mc, ok := call.Call.Value.(*ssa.MakeClosure)
+			if !ok {
+				continue
+			}
+			cf, ok := mc.Fn.(*ssa.Function)
+			if !ok || cf.Signature.Results().Len() != 0 {
+				continue
+			}
+			if len(ge.errCellRejections(ge.info(cf))) == 0 {
+				continue
+			}
+			expand(call, b, nil)
+		}
+	}
 	for _, b := range fn.Blocks {
 		if len(b.Instrs) == 0 {
 			continue
@@ -1127,6 +1298,7 @@ type GuardReq struct {
 	All        bool  // search the guards of every function and closure reachable from the entry, not only error-propagating calls
 	LFn        func(string) bool // when set, decides the left operand instead of the L pattern (argument-order-insensitive rows)
 	RFn        func(string) bool // likewise for the right operand
+	Skip       []string          // conditions under which going around the guard is legitimate wherever they are tested (not only when they dominate it)
 	While      []string          // conditions that must hold whenever the guard is evaluated (loop-continuation tests that dominate it): the guard must not reject where the property accepts
 }
 
@@ -1290,7 +1462,13 @@ func (ge *GuardEngine) CheckReq(c *Ctx, rule string, req GuardReq, guards []Guar
 			problems = append(problems, fmt.Sprintf("%s: the guard is evaluated (and can reject) even when not /%s/", where, miss))
 			continue
 		}
-		if why := ge.siteProblemsOpt(cd.g, ctxRes, req.LoopExitOK); why != "" {
+		ge.skipRes = nil
+		for _, sk := range req.Skip {
+			ge.skipRes = append(ge.skipRes, regexp.MustCompile(sk))
+		}
+		why := ge.siteProblemsOpt(cd.g, ctxRes, req.LoopExitOK)
+		ge.skipRes = nil
+		if why != "" {
 			problems = append(problems, fmt.Sprintf("%s: %s", where, why))
 			// remember candidates that are fine except for ONE unexpected condition: two of them under complementary
 			// conditions cover both cases (a fast path and a slow path each doing the check)
@@ -1531,6 +1709,23 @@ func (ge *GuardEngine) siteProblemsOpt(g Guard, allowed []*regexp.Regexp, loopEx
 			ge.pv.loadCtx = []ssa.Instruction{vif}
 			l, op, r := ge.decompose(vif.Cond, st.Env)
 			ge.pv.loadCtx = saved
+			if len(ge.skipRes) > 0 {
+				for e := 0; e < 2; e++ {
+					o := op
+					if e == 1 {
+						o = negOp[op]
+					}
+					d := l + " " + o + " " + r
+					if o == "true" || o == "false" {
+						d = l + " is " + o
+					}
+					for _, re := range ge.skipRes {
+						if re.MatchString(d) {
+							legit[[2]int{vb.Index, e}] = true
+						}
+					}
+				}
+			}
 			if r != "const:0" || !strings.HasPrefix(l, "len(") || !strings.HasSuffix(l, ")") {
 				continue
 			}
